@@ -163,10 +163,34 @@ def vs_expected(vs, pos):
     if vs["kind"] == "2":
         a = vs["params"][0]
         return (1 - a) * frm[0] + a * frm[1]
-    if vs["kind"] == "3":
+    funct = vs.get("funct", 1)
+    if vs["kind"] == "3" and funct == 1:
         a, b = vs["params"]
         return frm[0] + a * (frm[1] - frm[0]) + b * (frm[2] - frm[0])
-    raise ValueError(vs["kind"])
+    # GROMACS reference manual, "Virtual interaction sites"
+    if vs["kind"] == "3" and funct == 2:          # 3fd
+        a, b = vs["params"]
+        rij, rjk = frm[1] - frm[0], frm[2] - frm[1]
+        v = rij + a * rjk
+        return frm[0] + b * v / np.linalg.norm(v)
+    if vs["kind"] == "3" and funct == 3:          # 3fad
+        theta, d = vs["params"]
+        rij, rjk = frm[1] - frm[0], frm[2] - frm[1]
+        rperp = rjk - (np.dot(rij, rjk) / np.dot(rij, rij)) * rij
+        th = math.radians(theta)
+        return frm[0] + d * math.cos(th) * rij / np.linalg.norm(rij) + d * math.sin(th) * rperp / np.linalg.norm(rperp)
+    if vs["kind"] == "3" and funct == 4:          # 3out
+        a, b, c = vs["params"]
+        rij, rik = frm[1] - frm[0], frm[2] - frm[0]
+        return frm[0] + a * rij + b * rik + c * np.cross(rij, rik)
+    if vs["kind"] == "4" and funct == 2:          # 4fdn
+        a, b, c = vs["params"]
+        rij, rik, ril = frm[1] - frm[0], frm[2] - frm[0], frm[3] - frm[0]
+        rja = a * rik - rij
+        rjb = b * ril - rij
+        rm = np.cross(rja, rjb)
+        return frm[0] + c * rm / np.linalg.norm(rm)
+    raise ValueError((vs["kind"], funct))
 
 
 def check_c15(ctx, job, top):
@@ -258,6 +282,8 @@ def check_c15(ctx, job, top):
                 vsd["from_names"] = [anames[x] for x in vs["from"]]
                 exp = vs_expected(vsd, tmpl)
                 got = np.asarray(tmpl[anames[nreal + v]], dtype=float)
+                if not np.all(np.isfinite(exp)):
+                    continue        # degenerate construction (collinear defining atoms)
                 if np.linalg.norm(exp - got) > 1e-7:
                     ctx.fail("C15", "vsite", f"virtual site {anames[nreal + v]} of {nd['resname']} sits at "
                                              f"{got.tolist()}, construction gives {exp.tolist()}")
